@@ -2,7 +2,7 @@
    equal to the hand-written models the property theorems talk about.  If the source changes so that the
    generated term differs semantically, these proofs stop going through: that is the signal. *)
 From Coq Require Import Lia.
-From PV Require Import Model.Prelude Model.Bits Model.Sig Model.Matcher Model.Select Model.Uptime Gen.Generated.
+From PV Require Import Model.Prelude Model.Bits Model.Sig Model.Matcher Model.Select Model.Uptime Model.Mtu Gen.Generated.
 
 Lemma find_ext_local {A} (f g : A -> bool) l : (forall x, f x = g x) -> find f l = find g l.
 Proof. intros H. induction l as [|a l IH]; cbn [find]; [reflexivity|]. rewrite H, IH. reflexivity. Qed.
@@ -72,6 +72,63 @@ Proof. reflexivity. Qed.
 Theorem gen_should_fingerprint_eq frag ty : gen_should_fingerprint frag ty = should_fp frag ty.
 Proof. reflexivity. Qed.
 
+Theorem gen_valid_for_tcp_fingerprint_eq frag ty : gen_valid_for_tcp_fingerprint frag ty = valid_tcp_fp frag ty.
+Proof. reflexivity. Qed.
+Theorem gen_valid_for_mtu_fingerprint_eq frag ty mss : gen_valid_for_mtu_fingerprint frag ty mss = valid_mtu_fp frag ty mss.
+Proof. reflexivity. Qed.
+Theorem gen_valid_for_uptime_fingerprint_eq frag ty : gen_valid_for_uptime_fingerprint frag ty = valid_uptime frag ty.
+Proof. reflexivity. Qed.
+Theorem gen_mtu_from_mss_eq mss ver : 0 < mss -> gen_mtu_from_mss mss ver = Some (mss + hdr_of ver).
+Proof.
+  intros H. unfold gen_mtu_from_mss, hdr_of.
+  replace (mss <=? 0) with false by (symmetry; apply Z.leb_gt; exact H). reflexivity.
+Qed.
+Theorem gen_mtu_from_mss_reject mss ver : mss <= 0 -> gen_mtu_from_mss mss ver = None.
+Proof. intros H. unfold gen_mtu_from_mss. replace (mss <=? 0) with true by (symmetry; apply Z.leb_le; exact H). reflexivity. Qed.
+Theorem gen_mtu_signatures_match_eq a b : gen_mtu_signatures_match a b = (a =? b).
+Proof. reflexivity. Qed.
+
+(* the record-selection loops *)
+Lemma mtype_eqb_exact t : Generated.mtype_eqb t Exact = match t with Exact => true | _ => false end.
+Proof. destruct t; reflexivity. Qed.
+
+Theorem gen_find_tcp_match_eq md recs p : gen_find_tcp_match md recs p = find_tcp_match md recs p.
+Proof.
+  unfold gen_find_tcp_match, find_tcp_match. cbv zeta.
+  match goal with |- ?F recs None None = _ =>
+    assert (forall l fuzzy generic, F l generic fuzzy = find_loop md p l fuzzy generic) as H; [|apply H] end.
+  induction l as [|r rest IH]; intros fuzzy generic.
+  - cbn [find_loop]. destruct generic as [g|]; cbn [negb]; [reflexivity|].
+    destruct fuzzy as [[t r]|]; cbn [snd]; reflexivity.
+  - cbn [find_loop]. cbv beta iota fix. fold (find_loop md p).
+    rewrite gen_tcp_signatures_match_eq.
+    destruct (tcp_match md (r_sig r) p) as [[| |]|]; cbn [Generated.mtype_eqb].
+    + destruct (r_generic r); cbn [negb]; [|reflexivity].
+      destruct generic as [g|]; cbn [first_some]; apply IH.
+    + destruct fuzzy as [f|]; cbn [first_some]; apply IH.
+    + destruct fuzzy as [f|]; cbn [first_some]; apply IH.
+    + apply IH.
+Qed.
+
+Theorem gen_find_mtu_match_eq recs mtu : gen_find_mtu_match recs mtu = find_mtu recs mtu.
+Proof.
+  unfold gen_find_mtu_match, find_mtu.
+  induction recs as [|r rest IH]; cbn [find]; [reflexivity|].
+  unfold gen_mtu_signatures_match. destruct (m_mtu r =? mtu); [reflexivity | exact IH].
+Qed.
+
+Theorem gen_distance_eq m p : gen_distance m p = distance m p.
+Proof. unfold gen_distance, distance. destruct m as [[[| |] r]|]; cbn [fst snd Generated.mtype_eqb]; reflexivity. Qed.
+
+Print Assumptions gen_distance_eq.
+Print Assumptions gen_find_tcp_match_eq.
+Print Assumptions gen_find_mtu_match_eq.
+Print Assumptions gen_valid_for_tcp_fingerprint_eq.
+Print Assumptions gen_valid_for_mtu_fingerprint_eq.
+Print Assumptions gen_valid_for_uptime_fingerprint_eq.
+Print Assumptions gen_mtu_from_mss_eq.
+Print Assumptions gen_mtu_from_mss_reject.
+Print Assumptions gen_mtu_signatures_match_eq.
 Print Assumptions gen_divisors_eq.
 Print Assumptions gen_win_multi_eq.
 Print Assumptions gen_tcp_signatures_match_eq.
